@@ -240,7 +240,7 @@ PROPS["C17"] = dict(
     thorough=[("asan", 16, 600), ("plain", 16, 2000), ("memcheck", 8, 3, {"budget": 900})],
     floors={"quick": {"forced_collections": 50, "registry_walks_inside_sweep": 20, "registry_wrapped_entries": 1,
                       "registry_entries_displaced_2_or_more": 10, "explicit_deletions": 5, "explicit_deletions_while_stopped": 5,
-                      "root_holders_allocated": 5, "root_holders_deleted": 1, "allocations_made_by_destructors_during_a_sweep": 100}},
+                      "root_holders_allocated": 5, "root_holders_deleted": 1, "allocations_made_by_destructors_during_a_sweep": 100, "allocations_made_by_destructors_outside_forced_collections": 100}},
     rule="case = one heap driven through 40-200 (thorough: up to 540) random mutator operations, registry walked "
          "every 4th operation, after every forced collection and inside sweeps; distinct = hash of the operation "
          "list; non-trivial = at least 20 operations",
@@ -267,7 +267,7 @@ PROPS["C06"] = dict(
                       "deletions_inside_stop_window": 10, "allocations_inside_stop_window": 10,
                       "worker_teardowns_with_live_garbage": 50, "process_teardowns_with_live_garbage": 50,
                       "del_root": 20, "del_raw": 20, "del_of_box": 10, "containers_of_boxes": 20,
-                      "forced_collections": 50, "forced_collections_inside_stop_window": 30, "garbage_objects_whose_destructors_allocate": 500, "rings_of_mutual_owners_collected": 20, "deep_copies_of_owners": 300, "deep_copies_deleted_by_hand": 80}},
+                      "forced_collections": 50, "forced_collections_inside_stop_window": 30, "garbage_objects_whose_destructors_allocate": 500, "held_objects_whose_destructors_allocate": 100, "rings_of_mutual_owners_collected": 20, "deep_copies_of_owners": 300, "deep_copies_deleted_by_hand": 80}},
     rule="case = 30-150 (thorough: up to 330) random allocation/deletion/ownership/collection/stop-start operations "
          "on the main thread, in a worker thread, or in a forked child process; distinct = hash of the operation "
          "list; non-trivial = at least 20 operations",
@@ -419,7 +419,7 @@ PROPS["C19"] = dict(
     quick=[("asan", 16, 30), ("plain", 8, 30)],
     thorough=[("asan", 16, 1500), ("plain", 16, 4000), ("memcheck", 8, 3, {"budget": 900})],
     floors={"quick": {"containers_obtained_from_empty_sources": 200, "iterator_result_walks": 1000, "sized_map_checks": 2000, "sized_sequence_checks": 1000, "sized_maps_value_larger_than_key": 100, "sized_maps_key_larger_than_value": 100, "objects_observed": 5000, "refusals_checked": 2000, "neighbour_checks": 100,
-                      "heap_objects_released_once": 50, "empty_registry_thread_runs": 20, "stack_objects_of_sized_types_written_in_full": 1000, "rings_of_mutual_owners_released_once": 20}},
+                      "heap_objects_released_once": 50, "empty_registry_thread_runs": 20, "stack_objects_of_sized_types_written_in_full": 1000, "rings_of_mutual_owners_released_once": 20, "runtime_types_constructed_again_in_place": 50}},
     rule="evaluation = one observation or one refused operation; the enumeration is run completely at sizes "
          "1,2,3,7,64 by shard 0 and at random sizes by the generated cases; distinct = container size; non-trivial = "
          "every case",
